@@ -76,11 +76,11 @@ fn regs(m: u32) -> String {
 }
 
 fn static_part(ctx: &Ctx, per_shard: usize) -> Acc {
-    run_sharded(ctx.jobs, |shard| {
+    run_sharded(ctx, |shard| {
         let mut acc = Acc::new();
         for k in 0..per_shard {
             let mut rng = Rng::derive(ctx.seed, 2_500 + shard as u64, k as u64);
-            let prof = if rng.chance(0.7) { Profile::wild() } else { Profile::conforming() };
+            let prof = if rng.chance(0.7) { Profile::wild_static() } else { Profile::conforming() };
             let c = make_case(&mut rng, &prof, None, Some(&Style::plain()));
             acc.evaluations += 1;
             let Ok(a) = analyze(&c.printed.text) else {
@@ -123,11 +123,11 @@ pub fn run(ctx: &Ctx) -> i32 {
     );
     rep.assume("calls are transparent for argument registers and clobber every other caller-saved register not written by the callee; ecalls read a7 plus the RARS arguments and clobber all caller-saved registers");
     rep.assume("part (b) takes the analyzer's per-node gen/kill sets and ecall table as the documented constants");
-    let per_shard = ctx.tier.pick(40, 2500);
+    let per_shard = ctx.tier.pick(120, 2500);
     let runs = ctx.tier.pick(4, 8);
     let acc = workload(ctx, Which::C02, 2_000, per_shard, runs);
     rep.acc.merge(acc);
-    let acc = static_part(ctx, ctx.tier.pick(40, 2500));
+    let acc = static_part(ctx, ctx.tier.pick(120, 2500));
     rep.acc.merge(acc);
     rep.require("chains_checked", 10_000);
     rep.require("lfp_nodes_compared", 10_000);
